@@ -55,7 +55,12 @@ func runInChildren(t *testing.T, layer string, n int, perChildTimeout time.Durat
 	}
 	from := 0
 	for from < n {
-		cmd := exec.Command(os.Args[0], "-test.run", "^"+t.Name()+"$", "-test.timeout=0")
+		args := []string{"-test.run", "^" + t.Name() + "$", "-test.timeout=0"}
+		if d := os.Getenv("VERIF_COVERDIR"); d != "" {
+			// coverage measurement of the harness itself (tools/coverage.sh): children report their share
+			args = append(args, fmt.Sprintf("-test.coverprofile=%s/child-%s-%s-%d-%d.out", d, t.Name(), layer, os.Getpid(), from))
+		}
+		cmd := exec.Command(os.Args[0], args...)
 		restarts := 0
 		for _, r := range results {
 			if strings.HasPrefix(r.Info, "RESTART") {
